@@ -318,6 +318,94 @@ func c16Edit(o *mc.Explorer, p *gen.Program) (string, bool) {
 	return "", false
 }
 
+// c16Judge: one script (a generator tree, possibly edited) against the static validity rules and
+// the reference name resolver.
+func c16Judge(w *mc.Worker, prog *gen.Program, edits []string) {
+	pr := gen.Print(prog)
+	text := pr.Text()
+	_, starts, ends := pr.Render(pr.DefaultSeps())
+	spanOf := func(n any, kind string) [4]int {
+		for _, sp := range pr.Spans {
+			if sp.Node == n && sp.Kind == kind {
+				return [4]int{starts[sp.First].Line, starts[sp.First].Char, ends[sp.Last].Line, ends[sp.Last].Char}
+			}
+		}
+		return [4]int{-1, -1, -1, -1}
+	}
+	var res analysis.CheckResult
+	pmsg, where := guard(func() { res = analysis.CheckSource(text) })
+	c := Case{Script: text, Extra: map[string]any{"edits": edits}}
+	nt := len(prog.Vars) > 0 || len(edits) > 0
+	if pmsg != "" {
+		w.Eval(text, nt, "panic")
+		c.Observed = "panic: " + pmsg
+		w.Violation("C16.panic@"+where, "CheckSource panicked on a generated script: "+pmsg, len(text), c)
+		return
+	}
+	var got []nameDiag
+	var otherErrs []string
+	for _, d := range res.Diagnostics {
+		r := [4]int{d.Range.Start.Line, d.Range.Start.Character, d.Range.End.Line, d.Range.End.Character}
+		switch k := d.Kind.(type) {
+		case *analysis.UnboundVariable:
+			got = append(got, nameDiag{"unbound", k.Name, r})
+		case *analysis.DuplicateVariable:
+			got = append(got, nameDiag{"duplicate", k.Name, r})
+		case *analysis.UnusedVar:
+			got = append(got, nameDiag{"unused", k.Name, r})
+		default:
+			if d.Kind.Severity() == analysis.ErrorSeverity {
+				otherErrs = append(otherErrs, fmt.Sprintf("%T: %s @%d:%d", d.Kind, d.Kind.Message(), r[0], r[1]))
+			}
+		}
+	}
+	must, optional := resolveNames(prog, spanOf)
+	outcome := fmt.Sprintf("edits=%d names=%d", len(edits), len(must))
+	w.Eval(text, nt, outcome)
+	if len(edits) == 0 && len(otherErrs) > 0 {
+		c.Observed = strings.Join(otherErrs, " ; ")
+		kind := strings.SplitN(otherErrs[0], ":", 2)[0]
+		w.Violation("C16.false-error:"+kind, "a statically valid script received an error diagnostic: "+otherErrs[0], len(text), c)
+	}
+	// multiset comparison
+	count := map[string]int{}
+	for _, d := range must {
+		count[d.String()]++
+	}
+	var extra, missing []string
+	for _, d := range got {
+		k := d.String()
+		if count[k] > 0 {
+			count[k]--
+			continue
+		}
+		if d.kind == "unused" && optional[d.name] {
+			continue
+		}
+		extra = append(extra, k)
+	}
+	for k, n := range count {
+		for i := 0; i < n; i++ {
+			missing = append(missing, k)
+		}
+	}
+	sort.Strings(extra)
+	sort.Strings(missing)
+	if len(extra) > 0 || len(missing) > 0 {
+		c.Observed = "reported but not expected: [" + strings.Join(extra, "; ") + "]  expected but not reported: [" + strings.Join(missing, "; ") + "]"
+		kind := ""
+		if len(missing) > 0 {
+			kind = "missing-" + strings.SplitN(missing[0], " ", 2)[0]
+		} else {
+			kind = "extra-" + strings.SplitN(extra[0], " ", 2)[0]
+		}
+		w.Violation("C16.names:"+kind, "variable diagnostics differ from the declarations and uses of the script", len(text), c)
+	}
+	if nt {
+		w.Sample(outcome, c)
+	}
+}
+
 func runC16(w *mc.Worker) {
 	type bound struct {
 		name                 string
@@ -361,91 +449,46 @@ func runC16(w *mc.Worker) {
 						}
 						edits = append(edits, d)
 					}
-					pr := gen.Print(prog)
-					text := pr.Text()
-					_, starts, ends := pr.Render(pr.DefaultSeps())
-					spanOf := func(n any, kind string) [4]int {
-						for _, sp := range pr.Spans {
-							if sp.Node == n && sp.Kind == kind {
-								return [4]int{starts[sp.First].Line, starts[sp.First].Char, ends[sp.Last].Line, ends[sp.Last].Char}
-							}
-						}
-						return [4]int{-1, -1, -1, -1}
-					}
-					var res analysis.CheckResult
-					pmsg, where := guard(func() { res = analysis.CheckSource(text) })
-					c := Case{Script: text, Extra: map[string]any{"edits": edits}}
-					nt := len(prog.Vars) > 0 || len(edits) > 0
-					if pmsg != "" {
-						w.Eval(text, nt, "panic")
-						c.Observed = "panic: " + pmsg
-						w.Violation("C16.panic@"+where, "CheckSource panicked on a generated script: "+pmsg, len(text), c)
-						return
-					}
-					var got []nameDiag
-					var otherErrs []string
-					for _, d := range res.Diagnostics {
-						r := [4]int{d.Range.Start.Line, d.Range.Start.Character, d.Range.End.Line, d.Range.End.Character}
-						switch k := d.Kind.(type) {
-						case *analysis.UnboundVariable:
-							got = append(got, nameDiag{"unbound", k.Name, r})
-						case *analysis.DuplicateVariable:
-							got = append(got, nameDiag{"duplicate", k.Name, r})
-						case *analysis.UnusedVar:
-							got = append(got, nameDiag{"unused", k.Name, r})
-						default:
-							if d.Kind.Severity() == analysis.ErrorSeverity {
-								otherErrs = append(otherErrs, fmt.Sprintf("%T: %s @%d:%d", d.Kind, d.Kind.Message(), r[0], r[1]))
-							}
-						}
-					}
-					must, optional := resolveNames(prog, spanOf)
-					outcome := fmt.Sprintf("edits=%d names=%d", len(edits), len(must))
-					w.Eval(text, nt, outcome)
-					if len(edits) == 0 && len(otherErrs) > 0 {
-						c.Observed = strings.Join(otherErrs, " ; ")
-						kind := strings.SplitN(otherErrs[0], ":", 2)[0]
-						w.Violation("C16.false-error:"+kind, "a statically valid script received an error diagnostic: "+otherErrs[0], len(text), c)
-					}
-					// multiset comparison
-					count := map[string]int{}
-					for _, d := range must {
-						count[d.String()]++
-					}
-					var extra, missing []string
-					for _, d := range got {
-						k := d.String()
-						if count[k] > 0 {
-							count[k]--
-							continue
-						}
-						if d.kind == "unused" && optional[d.name] {
-							continue
-						}
-						extra = append(extra, k)
-					}
-					for k, n := range count {
-						for i := 0; i < n; i++ {
-							missing = append(missing, k)
-						}
-					}
-					sort.Strings(extra)
-					sort.Strings(missing)
-					if len(extra) > 0 || len(missing) > 0 {
-						c.Observed = "reported but not expected: [" + strings.Join(extra, "; ") + "]  expected but not reported: [" + strings.Join(missing, "; ") + "]"
-						kind := ""
-						if len(missing) > 0 {
-							kind = "missing-" + strings.SplitN(missing[0], " ", 2)[0]
-						} else {
-							kind = "extra-" + strings.SplitN(extra[0], " ", 2)[0]
-						}
-						w.Violation("C16.names:"+kind, "variable diagnostics differ from the declarations and uses of the script", len(text), c)
-					}
-					if nt {
-						w.Sample(outcome, c)
-					}
+					c16Judge(w, prog, edits)
 				})
 			})
 		})
 	}
+	// statement sequences: what one statement leaves behind in the checker must not leak into the next
+	seqOps := []func() gen.Stmt{
+		func() gen.Stmt { return saveAll("USD", "a") },
+		func() gen.Stmt { return saveN("USD", "2", "a") },
+		func() gen.Stmt { return sendAllS("USD", sa("a"), da("x")) },
+		func() gen.Stmt {
+			return sendAllS("USD", &gen.SrcCapped{Cap: gen.Mon("USD", "5"), From: sa("world")}, da("x"))
+		},
+		func() gen.Stmt { return sendN("USD", "3", sa("world"), da("x")) },
+		func() gen.Stmt { return sendN("USD", "3", &gen.SrcOverdraft{Addr: gen.Acct("a")}, da("x")) },
+		func() gen.Stmt { return sendN("USD", "3", lst(sa("a"), sa("world")), da("x")) },
+		func() gen.Stmt {
+			return sendN("USD", "4", &gen.SrcAllot{Items: []*gen.SrcAllotItem{{A: gen.Port("1/2"), From: sa("a")}, {A: &gen.Remaining{}, From: sa("world")}}}, da("x"))
+		},
+		func() gen.Stmt {
+			return sendN("USD", "3", sa("a"), &gen.DstInorder{Clauses: []*gen.DstClause{{Cap: gen.Mon("USD", "1"), To: &gen.Kept{}}}, Remaining: &gen.To{D: da("x")}})
+		},
+		func() gen.Stmt { return &gen.Call{Name: "set_tx_meta", Args: []gen.Expr{gen.Str("k"), gen.Num("1")}} },
+	}
+	L := 2
+	if w.Tier == "thorough" {
+		L = 3
+	}
+	w.Stage(fmt.Sprintf("stmt-seq-L%d", L), fmt.Sprintf("all sequences of <= %d statements out of %d statically valid ones (save-all, send-all, capped @world under send-all, @world / unbounded overdraft / allotment sources under a fixed amount, kept, a call): no error diagnostic", L, len(seqOps)), func() {
+		w.Outer(fmt.Sprintf("stmt-seq-L%d/seq", L), 0, func(o *mc.Explorer) {
+			n := 1 + o.Choose(L)
+			prog := &gen.Program{}
+			for i := 0; i < n; i++ {
+				prog.Stmts = append(prog.Stmts, seqOps[o.Choose(len(seqOps))]())
+			}
+			if !w.Mine(gen.Text(prog)) {
+				return
+			}
+			w.Owned()
+			w.Inner(0, func(in *mc.Explorer) { c16Judge(w, prog, nil) })
+		})
+	})
 }
